@@ -173,8 +173,47 @@ pub fn threads_line(t: usize, seed: u64, k: usize) -> String {
     s
 }
 
+/// `after <hex A> <hex B> <e|-> => <digest of B built right after A on one thread>:<digest of B built alone on a fresh thread>`
+/// — A and B are NEAR-IDENTICAL payloads (what a batch of tickets / rooms / contacts looks like)
+pub fn after_line(a: &[u8], b: &[u8], ecl: Option<usize>) -> String {
+    let head = format!("after {} {} {} => ", hex(a), hex(b), opt(ecl));
+    let o = Opts { ecl, mode: None, version: None, mask: None };
+    let (a2, b2) = (a.to_vec(), b.to_vec());
+    let seq = std::thread::spawn(move || {
+        let _ = build(&a2, o);
+        outcome_full(&build(&b2, o))
+    })
+    .join();
+    let b3 = b.to_vec();
+    let alone = std::thread::spawn(move || outcome_full(&build(&b3, o))).join();
+    match (seq, alone) {
+        (Ok(x), Ok(y)) => format!("{}b:{:016x}:{:016x}", head, fnv(&x), fnv(&y)),
+        _ => format!("{}trap thread", head),
+    }
+}
+
 pub fn gen(out: &mut crate::gen::Out, rng: &mut Rng, thorough: bool) {
     let caps = crate::gen::caps();
+    // batches of near-identical payloads built one after the other
+    for _ in 0..(if thorough { 600 } else { 60 }) {
+        let mut a = crate::gen::structured(rng);
+        if a.len() > 400 {
+            a.truncate(400);
+        }
+        while a.len() < 34 {
+            a.extend_from_slice(b"/0012");
+        }
+        let mut b = a.clone();
+        // one character differs: the last one, one near the end, or anywhere; same class (digit for digit, else a letter)
+        let p = match rng.below(3) {
+            0 => b.len() - 1,
+            1 => b.len() - 1 - rng.below(8.min(b.len() - 1)),
+            _ => rng.below(b.len()),
+        };
+        b[p] = if b[p].is_ascii_digit() { b'0' + ((b[p] - b'0' + 1 + rng.below(9) as u8) % 10) } else if b[p] == b'x' { b'y' } else { b'x' };
+        let e = if rng.chance(1, 2) { None } else { Some(rng.below(4)) };
+        out.job(move || after_line(&a, &b, e));
+    }
     for _ in 0..(if thorough { 12000 } else { 500 }) {
         let md = rng.below(3);
         let v = rng.below(6);
